@@ -1338,10 +1338,12 @@ static void script_yaml(void)
 		    vt_errfn, NULL)));
     fclose(W.fp);
     W.fp = NULL;
-    STEP_RC("copy", vnaproperty_copy(&W.root[1], W.root[0]));
     STEP_RC("import_string", vnaproperty_import_yaml_from_string(&W.root[1],
 		text, vt_errfn, NULL));
     STEP_RC("delete_subtree", vnaproperty_delete(&W.root[1], "ports[0]"));
+    /* the destination holds keys the source does not have */
+    STEP_RC("copy", vnaproperty_copy(&W.root[1], W.root[0]));
+    STEP_RC("delete_item", vnaproperty_delete(&W.root[1], "tags[0]"));
     STEP_RC("delete_root1", vnaproperty_delete(&W.root[1], "."));
     STEP_RC("delete_root0", vnaproperty_delete(&W.root[0], "."));
 bail:
